@@ -532,8 +532,7 @@ func (ce *cenv) call(x *CExpr) cval {
 		case *types.Basic:
 			return cval{t: sx("slen", a.t), typ: types.Typ[types.Int]}
 		case *types.Map:
-			_ = u
-			return cval{t: sx("maplen_i", a.t), typ: types.Typ[types.Int]}
+			return cval{t: vc.mapLen(ce.heap, a.t, u), typ: types.Typ[types.Int]}
 		}
 		return ce.fail("len of %s", a.typ)
 	case "cap":
@@ -617,10 +616,10 @@ func (ce *cenv) call(x *CExpr) cval {
 			sub := sx(fn, pr[0], pr[1])
 			fs = append(fs, Imp(sub, fmt.Sprintf("(forall ((k %s)) (! (=> (select (select %s %s) k) (select (select %s %s) k)) :pattern ((select (select %s %s) k))))", ks, D, pr[0], D, pr[1], D, pr[0])))
 			fs = append(fs, Imp(Not(sub), And(Sel(Sel(D, pr[0]), w), Not(Sel(Sel(D, pr[1]), w)))))
-			fs = append(fs, Imp(And(sub, Eq(sx("maplen_i", pr[0]), sx("maplen_i", pr[1]))), sx(fn, pr[1], pr[0])))
+			fs = append(fs, Imp(And(sub, Eq(vc.mapLen(ce.heap, pr[0], mt), vc.mapLen(ce.heap, pr[1], mt))), sx(fn, pr[1], pr[0])))
 		}
 		// equal key sets have equal length
-		fs = append(fs, Imp(And(sx(fn, a.t, b.t), sx(fn, b.t, a.t)), Eq(sx("maplen_i", a.t), sx("maplen_i", b.t))))
+		fs = append(fs, Imp(And(sx(fn, a.t, b.t), sx(fn, b.t, a.t)), Eq(vc.mapLen(ce.heap, a.t, mt), vc.mapLen(ce.heap, b.t, mt))))
 		vc.usedTrusted["finite-map lemmas keys_card (subset + equal length => equal key sets; equal key sets => equal length)"] = true
 		return cval{t: And(fs...), typ: boolT}
 	case "scanremaining", "scanpos":
